@@ -118,7 +118,10 @@ pub fn schema() -> Schema {
     b.add_field(Fe::new("opt".into(), Ft::Option(Box::new(Ft::U64))).unwrap()).unwrap();
     b.add_field(Fe::new("ukeys".into(), Ft::Array(vec![Ft::Text])).unwrap().with_unique()).unwrap();
     b.add_field(Fe::new("attrs".into(), Ft::Map(BTreeMap::from([("*".into(), Ft::U64)]))).unwrap()).unwrap();
-    b.add_field(Fe::new("body".into(), Ft::Text).unwrap()).unwrap();
+    // optional text: a document may carry none (an update can clear it), and the text index then
+    // holds no entry for it (seeded change C02-3). The vector field cannot be optional: an HNSW
+    // index demands the type Vector itself.
+    b.add_field(Fe::new("body".into(), Ft::Option(Box::new(Ft::Text))).unwrap()).unwrap();
     b.add_field(Fe::new("emb".into(), Ft::Vector).unwrap()).unwrap();
     b.build().unwrap()
 }
@@ -146,7 +149,8 @@ impl DocSpec {
             prop::option::of(0u8..5),
             prop::collection::vec(0u8..8, 0..3),
             prop::collection::vec((0u8..5, 0u8..3), 0..3),
-            prop::collection::vec(0u8..10, 1..5),
+            // empty = no text at all (Null)
+            prop_oneof![5 => prop::collection::vec(0u8..10, 1..5), 1 => Just(vec![])],
             any::<u8>(),
         )
             .prop_map(|(name, age, score, tags, opt, ukeys, attrs, body, emb)| DocSpec { name, age, score, tags, opt, ukeys, attrs, body, emb })
@@ -161,7 +165,7 @@ impl DocSpec {
         m.insert("opt".into(), self.opt.map(|o| Fv::U64(o as u64)).unwrap_or(Fv::Null));
         m.insert("ukeys".into(), Fv::Array(self.ukeys.iter().map(|t| Fv::Text(format!("u{t}"))).collect()));
         m.insert("attrs".into(), Fv::Map(self.attrs.iter().map(|(k, v)| (format!("a{k}").into(), Fv::U64(*v as u64))).collect()));
-        m.insert("body".into(), Fv::Text(self.body.iter().map(|w| WORDS[*w as usize % WORDS.len()]).collect::<Vec<_>>().join(" ")));
+        m.insert("body".into(), if self.body.is_empty() { Fv::Null } else { Fv::Text(self.body.iter().map(|w| WORDS[*w as usize % WORDS.len()]).collect::<Vec<_>>().join(" ")) });
         m.insert("emb".into(), Fv::Vector(emb_of(self.emb).iter().map(|x| bf16::from_f32(*x)).collect()));
         m
     }
@@ -396,14 +400,15 @@ pub async fn check_indexes(col: &Collection, model: &Model, idx: &IndexSet, at: 
                 return Err(format!("{at}: text term {w:?} returns {got:?}, live documents containing it: {want:?}"));
             }
         }
-        if view.stats().num_elements != model.len() as u64 && false {
-            return Err(format!("{at}: bm25 num_elements"));
+        let with_text = model.values().filter(|f| matches!(f.get("body"), Some(Fv::Text(_)))).count();
+        if view.stats().num_elements != with_text as u64 {
+            return Err(format!("{at}: the text index counts {} documents, {with_text} live documents carry text", view.stats().num_elements));
         }
     }
     // HNSW
     if idx.emb {
         let view = col.get_hnsw_index("emb").map_err(|e| format!("{at}: hnsw index missing: {e}"))?;
-        let n = model.len();
+        let n = model.values().filter(|f| matches!(f.get("emb"), Some(Fv::Vector(_)))).count();
         if view.stats().num_elements != n as u64 {
             return Err(format!("{at}: vector index holds {} entries, {n} live documents carry a vector", view.stats().num_elements));
         }
@@ -413,8 +418,8 @@ pub async fn check_indexes(col: &Collection, model: &Model, idx: &IndexSet, at: 
                 let res = view.search(&q, n + 1);
                 let mut seen = BTreeSet::new();
                 for (id, _) in &res {
-                    if !model.contains_key(id) {
-                        return Err(format!("{at}: vector search returns id {id}, which is not a live document"));
+                    if !matches!(model.get(id).and_then(|f| f.get("emb")), Some(Fv::Vector(_))) {
+                        return Err(format!("{at}: vector search returns id {id}, which is not a live document that carries a vector"));
                     }
                     if !seen.insert(*id) {
                         return Err(format!("{at}: vector search returns id {id} twice"));
